@@ -247,6 +247,15 @@ func (x *Exec) vcIntrinsic(fr *Frame, name string, args []Value, pos token.Pos) 
 		}
 		x.st.ghost[name] = append(append([]Value{}, x.st.ghost[name]...), snap)
 		return nil
+	case "GhostIs":
+		// vc.GhostIs(name, v): v equals, field by field, the (single) value recorded in the ghost log
+		name := x.constStr(args[0])
+		l := x.st.ghost[name]
+		iv, ok := args[1].(IfaceV)
+		if len(l) != 1 || !ok || iv.V == nil {
+			return Scalar{False()}
+		}
+		return Scalar{x.valEqual(x.snap(iv.V), x.snap(l[0]))}
 	case "GhostLen":
 		name := x.constStr(args[0])
 		if l := x.st.ghost[name]; len(l) == 1 {
